@@ -180,6 +180,10 @@ def C05_full : Prop :=
 def C05_full_fixed : Prop :=
   ∀ (sched : List RaceStep) (s : RaceSt), raceRun fixedTree sched = some s → raceDone s = true → allAckedOnDisk s = true
 
+/-- audit A1: Exit has closed the topics it found; a publisher's `GetTopic` (it waited for the NSQD lock) creates a
+second topic and its publish is acknowledged; nobody flushes that topic (`exit_races_new_topic_publish`) -/
+def witnessNewTopic : List RaceStep := [.exitFlag, .exitChan, .exitTopicFlush, .pubNewTopic 1]
+
 /-- F9 (a): the consumer pump has taken m off the channel queue and not yet registered it in
 flight (`proto.pump.afterRecv`) when `Channel.flush` runs: m reaches neither disk nor a consumer -/
 def witnessPump : List RaceStep :=
@@ -256,7 +260,7 @@ goroutine has run to its end, every acknowledged message is on a disk queue, was
 registered in flight by a consumer pump *after* its channel had been flushed — the one window left -/
 theorem fixed_tree_loses_only_pump_window (sched : List RaceStep) (s : RaceSt)
     (h : raceRun fixedTree sched = some s) (hd : raceDone s = true) :
-    ∀ m ∈ s.acked, m ∈ s.topicDisk ∨ m ∈ s.chanDisk ∨ m ∈ s.finished ∨ m ∈ s.lateReg := by
+    ∀ m ∈ s.acked, m ∈ s.topicDisk ∨ m ∈ s.chanDisk ∨ m ∈ s.finished ∨ m ∈ s.lateReg ∨ m ∈ s.lateTopic := by
   have inv := fixedInv_run sched fixedTree s fixedInv_init h
   simp only [raceDone, Bool.and_eq_true, List.isEmpty_iff] at hd
   obtain ⟨⟨⟨⟨htc, _⟩, hph⟩, _⟩, _⟩ := hd
@@ -270,19 +274,57 @@ theorem fixed_tree_loses_only_pump_window (sched : List RaceStep) (s : RaceSt)
 /-- `C05_fixed_partial`: hypothesis forced by `C05_full_fixed_false` — no consumer pump registered a message
 after its channel was flushed.  Then the repaired tree loses nothing, for every schedule. -/
 theorem C05_fixed_partial (sched : List RaceStep) (s : RaceSt)
-    (h : raceRun fixedTree sched = some s) (hd : raceDone s = true) (hl : s.lateReg = []) :
+    (h : raceRun fixedTree sched = some s) (hd : raceDone s = true) (hl : s.lateReg = []) (hlt : s.lateTopic = []) :
     allAckedOnDisk s = true := by
   unfold allAckedOnDisk
   rw [List.all_eq_true]
   intro m hm
   have := fixed_tree_loses_only_pump_window sched s h hd m hm
-  rw [hl] at this
+  rw [hl, hlt] at this
   simp only [Bool.or_eq_true, List.contains_eq_mem, decide_eq_true_eq]
-  rcases this with h1 | h1 | h1 | h1
+  rcases this with h1 | h1 | h1 | h1 | h1
   · exact Or.inl (Or.inl h1)
   · exact Or.inl (Or.inr h1)
   · exact Or.inr h1
   · cases h1
+  · cases h1
+
+/-- **F17 + F18 + F23 + F26** (`joinedTree`: `NSQD.Exit` joins every connection handler and its messagePump before
+it closes the topics, and `GetTopic` hands out a closed topic once `isExiting` is set): the last two windows are closed — whatever the schedule, once the shutdown has completed and
+every goroutine has run to its end, every acknowledged message is on a disk queue or was FINished.  This is
+`C05_full_fixed` without any hypothesis, for the tree with the three repairs. -/
+theorem C05_full_joined (sched : List RaceStep) (s : RaceSt)
+    (h : raceRun joinedTree sched = some s) (hd : raceDone s = true) : allAckedOnDisk s = true := by
+  have inv := joinInv_run sched joinedTree s joinInv_init h
+  simp only [raceDone, Bool.and_eq_true, List.isEmpty_iff] at hd
+  obtain ⟨⟨⟨⟨htc, _⟩, hph⟩, _⟩, _⟩ := hd
+  have hcc := inv.fixed.tc htc
+  unfold allAckedOnDisk
+  rw [List.all_eq_true]
+  intro m hm
+  have := inv.fixed.safe m hm
+  unfold Safe at this
+  rw [hph, htc, hcc, inv.late, inv.lt] at this
+  simp only [Bool.or_eq_true, List.contains_eq_mem, decide_eq_true_eq]
+  simp at this
+  rcases this with h1 | h1 | h1
+  · exact Or.inl (Or.inl h1)
+  · exact Or.inl (Or.inr h1)
+  · exact Or.inr h1
+
+/-- on that tree the pump witness is not a schedule (the topics are not closed while a pump holds a message),
+after the shutdown has begun no pump takes anything, and the interleaving with the waiting made explicit loses
+nothing; F23 alone does not repair the other two windows -/
+theorem joined_witness_impossible :
+    raceRun joinedTree witnessPump = none ∧
+    raceRun joinedTree [.pubCheck 1, .pubSend 1, .fanout, .exitFlag, .pumpRecv] = none ∧
+    lostFrom joinedTree [.pubCheck 1, .pubSend 1, .fanout, .pumpRecv, .pumpRegister 1, .exitFlag, .exitChan, .exitTopicFlush] = false ∧
+    lostFrom { pumpJoin := true } witnessPublish = true ∧ lostFrom { pumpJoin := true } witnessReq = true ∧
+    -- audit A1: a publish that creates its topic after Exit's critical section is acknowledged and never flushed,
+    -- unless GetTopic refuses (F26); F23 and F26 each leave the other window open
+    lostFrom fixedTree witnessNewTopic = true ∧ lostFrom { fixedTree with pumpJoin := true } witnessNewTopic = true ∧
+    lostFrom { fixedTree with newTopicGuard := true } witnessPump = true ∧
+    lostFrom joinedTree witnessNewTopic = false := by decide
 
 /-- **F17 alone** (whatever the channel-side parameters, from any initial parameter choice with the
 barrier): every acknowledged message is on the topic's disk queue or was handed to the channel by the
@@ -290,7 +332,7 @@ topic pump — nothing is left in the memory queue of a closed topic -/
 theorem barrier_topic_side_safe (s0 : RaceSt) (hb : s0.topicBarrier = true)
     (he : s0.topicExiting = false) (hc : s0.chanClosed = false) (ht : s0.topicClosed = false) (ha : s0.acked = [])
     (sched : List RaceStep) (s : RaceSt) (h : raceRun s0 sched = some s) (hd : s.topicClosed = true) :
-    ∀ m ∈ s.acked, m ∈ s.topicDisk ∨ m ∈ s.fanned := by
+    ∀ m ∈ s.acked, m ∈ s.topicDisk ∨ m ∈ s.fanned ∨ m ∈ s.lateTopic := by
   have i0 : BarrierInv s0 :=
     { bar := hb
       safe := by intro m hm; rw [ha] at hm; cases hm
@@ -299,9 +341,10 @@ theorem barrier_topic_side_safe (s0 : RaceSt) (hb : s0.topicBarrier = true)
       tc := by intro h; rw [ht] at h; cases h }
   have inv := barrierInv_run sched s0 s i0 h
   intro m hm
-  rcases inv.safe m hm with h1 | h1 | h1
+  rcases inv.safe m hm with h1 | h1 | h1 | h1
   · exact Or.inl h1
-  · exact Or.inr h1
+  · exact Or.inr (Or.inl h1)
+  · exact Or.inr (Or.inr h1)
   · rw [hd] at h1; cases h1.1
 
 /-- the state after the three stages of a shutdown that nothing interleaves with -/
@@ -312,19 +355,21 @@ def exited (s : RaceSt) : RaceSt :=
 /-- `C05_partial` (any tree whose scans hold the exit lock, in particular the unrepaired one): a shutdown
 that starts when no publisher is between the exit check and its queue write, no consumer pump holds an
 unregistered message and no REQ / TOUCH / scan is between its two halves (and runs its three stages
-without such a continuation appearing) leaves every acknowledged, un-FINished message on disk -/
+without such a continuation appearing) leaves every acknowledged, un-FINished message on disk
+(`hlt`: nothing was acknowledged into a topic created after an earlier shutdown's critical section — `pubNewTopic`
+needs `topicExiting`, so this holds in every state reached before the shutdown begins) -/
 theorem C05_partial (s : RaceSt) (hinv : RaceInv s) (hp : s.putPending = []) (hh : s.pumpHolds = [])
-    (hsc : s.scanHolds = []) (ha : s.ansHolds = [])
+    (hsc : s.scanHolds = []) (ha : s.ansHolds = []) (hlt : s.lateTopic = [])
     (he : s.topicExiting = false) (hc : s.chanClosed = false) (ht : s.topicClosed = false) :
     raceRun s [.exitFlag, .exitChan, .exitTopicFlush] = some (exited s) ∧
       allAckedOnDisk (exited s) = true ∧ raceDone (exited s) = true := by
-  refine ⟨by simp [raceRun, raceStep, he, hc, ht, hsc, ha, hp, exited], ?_, ?_⟩
+  refine ⟨by simp [raceRun, raceStep, he, hc, ht, hsc, ha, hp, hh, exited], ?_, ?_⟩
   · unfold allAckedOnDisk exited
     rw [List.all_eq_true]
     intro m hm
     have := hinv.2.1 hc m hm
     unfold Located at this
-    simp only [hh, hsc, ha, List.not_mem_nil, or_false, false_or] at this
+    simp only [hh, hsc, ha, hlt, List.not_mem_nil, or_false, false_or] at this
     simp only [Bool.or_eq_true, List.contains_eq_mem, List.mem_append, decide_eq_true_eq]
     rcases this with h1 | h1 | h1 | h1 | h1 | h1 | h1 <;> simp [h1]
   · simp [raceDone, exited, hp, hh, hsc, ha]
@@ -405,5 +450,9 @@ example : (raceRun fixedTree fixedDemo).map (fun s => (raceDone s, s.lateReg, s.
 example : (raceRun fixedTree witnessPump).map (fun s => (raceDone s, s.lateReg, allAckedOnDisk s)) = some (true, [1], false) := by decide
 example : (raceRun { topicBarrier := true } [.pubCheck 1, .pubSend 1, .pubCheck 2, .pubSend 2, .fanout, .exitFlag, .exitChan, .exitTopicFlush]).map
     (fun s => (s.topicClosed, s.acked, s.topicDisk, s.fanned)) = some (true, [2, 1], [2], [1]) := by decide
+
+/-- `C05_full_joined` is not vacuous: the same complete shutdown on the tree with F23 -/
+example : (raceRun joinedTree fixedDemo).map (fun s => (raceDone s, s.lateReg, s.acked, s.topicDisk, s.chanDisk, s.finished, allAckedOnDisk s)) =
+    some (true, [], [5, 4, 3, 2, 1], [4, 5], [2, 1], [3], true) := by rfl
 
 end Nsq.Props.C05
